@@ -126,6 +126,10 @@ bool FeatureChecker::isRateDisallowedInSymbolic(const expression_t& e)
 
         if (rate.get_kind() != Constants::CONSTANT)
             return false;
+        if (rate.get_type().is_double()) {  // x' == 1.5: the constant holds a double, not an int
+            const double value = rate.get_double_value();
+            return value != 0 && value != 1;
+        }
         if (rate.get_value() != 0 && rate.get_value() != 1)
             return true;  // NOLINT(readability-simplify-boolean-expr)
 
